@@ -274,5 +274,269 @@ theorem exchangeStep_none_nil (cf : MG Var) (outcomes : Event) (cond : Var) (val
   · exact h'
   · cases hg
 
+/-! ### the converse: the loop answers "inconsistent" EXACTLY on the two conflicts -/
+
+theorem Event.get?_map_set (k : Var) (v : Iv) (k' : Var) : ∀ (acc : Event),
+    Event.get? (acc.map (fun p => if p.1 = k then (k, v) else p)) k' = (Event.get? acc k').map (fun w => if k' = k then v else w)
+  | [] => rfl
+  | p :: ps => by
+    have ih := Event.get?_map_set k v k' ps
+    have key : (if p.1 = k then (k, v) else p).1 = p.1 := by
+      split
+      · rename_i h; exact h.symm
+      · rfl
+    simp only [Event.get?, List.map_cons, List.find?_cons, key] at ih ⊢
+    by_cases hp' : p.1 = k'
+    · simp only [hp', decide_true, Option.map_some]
+      by_cases hp : p.1 = k
+      · have hkk : k' = k := hp'.symm.trans hp
+        simp only [hkk, if_true]
+      · have hkk : ¬ k' = k := fun e => hp (hp'.trans e)
+        simp only [hkk, if_false]
+    · simp only [hp', decide_false]
+      exact ih
+
+/-- reading a dict after `d[k] = v` -/
+theorem Event.get?_set (acc : Event) (k : Var) (v : Iv) (k' : Var) :
+    (acc.set k v).get? k' = if k' = k then some v else acc.get? k' := by
+  unfold Event.set
+  by_cases hh : acc.has k = true
+  · rw [if_pos hh]
+    rw [Event.get?_map_set]
+    by_cases hk : k' = k
+    · rw [if_pos hk, hk]
+      cases hg : acc.get? k with
+      | some w => simp
+      | none =>
+        exfalso
+        unfold Event.get? at hg
+        cases hf : acc.find? (fun p => p.1 = k) with
+        | some r => rw [hf] at hg; cases hg
+        | none =>
+          rw [List.find?_eq_none] at hf
+          obtain ⟨p, hp, hpk⟩ := List.any_eq_true.1 hh
+          exact hf p hp hpk
+    · rw [if_neg hk]
+      simp [hk]
+  · rw [if_neg hh]
+    have hnone : acc.find? (fun p => decide (p.1 = k)) = none := by
+      rw [List.find?_eq_none]
+      intro p hp hpk
+      exact hh (List.any_eq_true.2 ⟨p, hp, hpk⟩)
+    by_cases hk : k' = k
+    · rw [if_pos hk, hk]
+      simp [Event.get?, List.find?_append, hnone]
+    · rw [if_neg hk]
+      have : ¬ k = k' := fun e => hk e.symm
+      simp only [Event.get?, List.find?_append, List.find?_cons, this, decide_false, List.find?_nil, Option.or_none]
+
+/-- the loop of line 4 on the re-keyed outcomes `qs` (what `exchangeLoop` computes once every `exchangeKey` has succeeded);
+NOT a model of a Python function, a device of the proofs below -/
+def keyLoop (rem : Event) : List (Var × Iv) → Event → Option Event
+  | [], acc => some acc
+  | q :: qs, acc =>
+    match acc.get? q.1 with
+    | some v => if v = q.2 then (if remClash rem q then none else keyLoop rem qs (acc.set q.1 q.2)) else none
+    | none => if remClash rem q then none else keyLoop rem qs (acc.set q.1 q.2)
+
+theorem keyLoop_cons (rem : Event) (q : Var × Iv) (qs : List (Var × Iv)) (acc : Event) :
+    keyLoop rem (q :: qs) acc =
+      (match acc.get? q.1 with
+       | some v => if v = q.2 then (if remClash rem q then none else keyLoop rem qs (acc.set q.1 q.2)) else none
+       | none => if remClash rem q then none else keyLoop rem qs (acc.set q.1 q.2)) := rfl
+
+theorem exchangeLoop_eq_keyLoop (cf : MG Var) (cond : Var) (val : Iv) (rem : Event) : ∀ (ps qs : List (Var × Iv)) (acc : Event),
+    ps.mapM (exchangeKey cf cond val) = .ok qs → exchangeLoop cf cond val rem ps acc = .ok (keyLoop rem qs acc)
+  | [], qs, acc, hm => by
+    simp only [List.mapM_nil, pure, Except.pure, Except.ok.injEq] at hm
+    subst hm
+    rfl
+  | p :: ps, qs, acc, hm => by
+    rw [List.mapM_cons] at hm
+    simp only [bind, Except.bind, pure, Except.pure] at hm
+    cases hq : exchangeKey cf cond val p with
+    | error err => rw [hq] at hm; cases hm
+    | ok q =>
+      rw [hq] at hm
+      simp only at hm
+      cases hl : ps.mapM (exchangeKey cf cond val) with
+      | error err => rw [hl] at hm; cases hm
+      | ok qs' =>
+        rw [hl] at hm
+        simp only [Except.ok.injEq] at hm
+        subst hm
+        have ih := exchangeLoop_eq_keyLoop cf cond val rem ps qs' (acc.set q.1 q.2) hl
+        rw [keyLoop_cons]
+        unfold exchangeLoop
+        simp only [bind, Except.bind, hq, pure, Except.pure]
+        cases acc.get? q.1 with
+        | none =>
+          simp only
+          split
+          · rfl
+          · exact ih
+        | some v =>
+          simp only
+          split
+          · split
+            · rfl
+            · exact ih
+          · rfl
+
+/-- the re-keyed outcomes do not contradict one another: equal keys carry equal values -/
+def Agree (a b : Var × Iv) : Prop := a.1 = b.1 → a.2 = b.2
+
+theorem keyLoop_some_iff (rem : Event) : ∀ (qs : List (Var × Iv)) (acc : Event),
+    (∃ e, keyLoop rem qs acc = some e) ↔
+      ((∀ q ∈ qs, ∀ v, acc.get? q.1 = some v → v = q.2) ∧ qs.Pairwise Agree ∧ ∀ q ∈ qs, remClash rem q = false)
+  | [], acc => by simp [keyLoop]
+  | q :: qs, acc => by
+    have ih := keyLoop_some_iff rem qs (acc.set q.1 q.2)
+    have hstep : (∃ e, keyLoop rem (q :: qs) acc = some e) ↔
+        ((∀ v, acc.get? q.1 = some v → v = q.2) ∧ remClash rem q = false ∧ ∃ e, keyLoop rem qs (acc.set q.1 q.2) = some e) := by
+      rw [keyLoop_cons]
+      cases hg : acc.get? q.1 with
+      | none =>
+        simp only
+        cases hc : remClash rem q with
+        | true => simp
+        | false => simp
+      | some v =>
+        simp only
+        by_cases hv : v = q.2
+        · cases hc : remClash rem q with
+          | true => simp [hv]
+          | false => simp [hv]
+        · simp only [if_neg hv]
+          constructor
+          · rintro ⟨e, he⟩; cases he
+          · rintro ⟨h1, _, _⟩; exact absurd (h1 v rfl) hv
+    rw [hstep, ih, List.pairwise_cons]
+    constructor
+    · rintro ⟨hhead, hcl, hacc, hpw, hrem⟩
+      refine ⟨?_, ⟨?_, hpw⟩, ?_⟩
+      · intro q' hq' v hg
+        rcases List.mem_cons.1 hq' with rfl | hq'
+        · exact hhead v hg
+        · by_cases hk : q'.1 = q.1
+          · have h1 := hacc q' hq' q.2 (by rw [Event.get?_set, if_pos hk])
+            rw [hk] at hg
+            rw [hhead v hg, h1]
+          · exact hacc q' hq' v (by rw [Event.get?_set, if_neg hk]; exact hg)
+      · intro q' hq' hk
+        exact hacc q' hq' q.2 (by rw [Event.get?_set, if_pos hk.symm])
+      · intro q' hq'
+        rcases List.mem_cons.1 hq' with rfl | hq'
+        · exact hcl
+        · exact hrem q' hq'
+    · rintro ⟨hacc, ⟨hhd, hpw⟩, hrem⟩
+      refine ⟨hacc q List.mem_cons_self, hrem q List.mem_cons_self, ?_, hpw, fun q' hq' => hrem q' (List.mem_cons_of_mem _ hq')⟩
+      intro q' hq' v hg
+      rw [Event.get?_set] at hg
+      by_cases hk : q'.1 = q.1
+      · rw [if_pos hk] at hg
+        cases hg
+        exact hhd q' hq' hk.symm
+      · rw [if_neg hk] at hg
+        exact hacc q' (List.mem_cons_of_mem _ hq') v hg
+
+/-- the re-keyed outcomes contradict one another iff two entries AT DIFFERENT POSITIONS (`[a, b]` is a sublist) have one key and two values -/
+theorem not_pairwise_agree_iff (qs : List (Var × Iv)) :
+    ¬ qs.Pairwise Agree ↔ ∃ a b, [a, b].Sublist qs ∧ a.1 = b.1 ∧ a.2 ≠ b.2 := by
+  rw [List.pairwise_iff_forall_sublist]
+  constructor
+  · intro h
+    exact Classical.byContradiction fun hn =>
+      h (fun {a b} hsub hk => Decidable.byContradiction fun hne => hn ⟨a, b, hsub, hk, hne⟩)
+  · rintro ⟨a, b, hsub, hk, hne⟩ h
+    exact hne (h hsub hk)
+
+/-- **the loop returns a dict EXACTLY when the re-keyed outcomes contradict neither one another nor a remaining condition** (and then
+it is `dict(qs)`), provided every `intervene` succeeded -/
+theorem exchangeStep_some_iff (cf : MG Var) (outcomes : Event) (cond : Var) (val : Iv) (rem : Event) (qs : List (Var × Iv))
+    (hm : outcomes.mapM (exchangeKey cf cond val) = .ok qs) :
+    exchangeStep cf outcomes cond val rem = .ok (some (Event.ofList qs)) ↔
+      (qs.Pairwise (fun a b => a.1 = b.1 → a.2 = b.2) ∧ ∀ q ∈ qs, ∀ v, rem.get? q.1 = some v → v = q.2) := by
+  have hsome := keyLoop_some_iff rem qs []
+  have hacc : ∀ q ∈ qs, ∀ v, Event.get? [] q.1 = some v → v = q.2 := by intro q _ v h; cases h
+  have heq : exchangeStep cf outcomes cond val rem = .ok (keyLoop rem qs []) := by
+    unfold exchangeStep
+    exact exchangeLoop_eq_keyLoop cf cond val rem outcomes qs [] hm
+  constructor
+  · intro h
+    rw [heq] at h
+    simp only [Except.ok.injEq] at h
+    obtain ⟨_, hpw, hrem⟩ := hsome.1 ⟨_, h⟩
+    refine ⟨hpw, fun q hq v hg => Decidable.byContradiction fun hne => ?_⟩
+    have := remClash_of_get? rem q v hg hne
+    rw [hrem q hq] at this
+    cases this
+  · rintro ⟨hpw, hcl⟩
+    have hrem : ∀ q ∈ qs, remClash rem q = false := by
+      intro q hq
+      cases hc : remClash rem q with
+      | false => rfl
+      | true =>
+        obtain ⟨v, hg, hne⟩ := remClash_true rem q hc
+        exact absurd (hcl q hq v hg) hne
+    obtain ⟨e, he⟩ := hsome.2 ⟨hacc, hpw, hrem⟩
+    have hstep : exchangeStep cf outcomes cond val rem = .ok (some e) := by rw [heq, he]
+    have hx := exchangeStep_some cf outcomes cond val rem e hstep
+    rw [exchangeOutcomes_eq, hm] at hx
+    simp only [Except.ok.injEq] at hx
+    rw [hstep, hx]
+
+/-- **the loop answers "inconsistent" EXACTLY when two re-keyed outcomes at different positions have one key and two values, or a
+re-keyed outcome is the variable of a remaining condition that demands a different value** (provided every `intervene` succeeded:
+errors surface first) -/
+theorem exchangeStep_none_iff (cf : MG Var) (outcomes : Event) (cond : Var) (val : Iv) (rem : Event) (qs : List (Var × Iv))
+    (hm : outcomes.mapM (exchangeKey cf cond val) = .ok qs) :
+    exchangeStep cf outcomes cond val rem = .ok none ↔
+      ((∃ a b, [a, b].Sublist qs ∧ a.1 = b.1 ∧ a.2 ≠ b.2) ∨ (∃ q ∈ qs, ∃ v', rem.get? q.1 = some v' ∧ v' ≠ q.2)) := by
+  have hsome := keyLoop_some_iff rem qs []
+  have hacc : ∀ q ∈ qs, ∀ v, Event.get? [] q.1 = some v → v = q.2 := by intro q _ v h; cases h
+  have heq : exchangeStep cf outcomes cond val rem = .ok (keyLoop rem qs []) := by
+    unfold exchangeStep
+    exact exchangeLoop_eq_keyLoop cf cond val rem outcomes qs [] hm
+  rw [heq]
+  constructor
+  · intro h
+    have hk : keyLoop rem qs [] = none := by simpa using h
+    by_cases hpw : qs.Pairwise Agree
+    · right
+      by_cases hex : ∃ q ∈ qs, remClash rem q = true
+      · obtain ⟨q, hq, hc⟩ := hex
+        obtain ⟨v, hg, hne⟩ := remClash_true rem q hc
+        exact ⟨q, hq, v, hg, hne⟩
+      · exfalso
+        have hrem : ∀ q ∈ qs, remClash rem q = false := by
+          intro q hq
+          cases hc : remClash rem q with
+          | false => rfl
+          | true => exact absurd ⟨q, hq, hc⟩ hex
+        obtain ⟨e, he⟩ := hsome.2 ⟨hacc, hpw, hrem⟩
+        rw [hk] at he
+        cases he
+    · left; exact (not_pairwise_agree_iff qs).1 hpw
+  · intro h
+    have hnot : ¬ ∃ e, keyLoop rem qs [] = some e := by
+      intro hs
+      obtain ⟨_, hpw, hrem⟩ := hsome.1 hs
+      rcases h with hc | ⟨q, hq, v, hg, hne⟩
+      · exact (not_pairwise_agree_iff qs).2 hc hpw
+      · have := remClash_of_get? rem q v hg hne
+        rw [hrem q hq] at this
+        cases this
+    cases hk : keyLoop rem qs [] with
+    | none => rfl
+    | some e => exact absurd ⟨e, hk⟩ hnot
+
+/-- the converse of `exchangeStep_none` on its own -/
+theorem exchangeStep_none_of_conflict (cf : MG Var) (outcomes : Event) (cond : Var) (val : Iv) (rem : Event) (qs : List (Var × Iv))
+    (hm : outcomes.mapM (exchangeKey cf cond val) = .ok qs)
+    (h : (∃ a b, [a, b].Sublist qs ∧ a.1 = b.1 ∧ a.2 ≠ b.2) ∨ (∃ q ∈ qs, ∃ v', rem.get? q.1 = some v' ∧ v' ≠ q.2)) :
+    exchangeStep cf outcomes cond val rem = .ok none :=
+  (exchangeStep_none_iff cf outcomes cond val rem qs hm).2 h
+
 end Cf
 end Y0
